@@ -1,7 +1,7 @@
 """C15 - CPU kinds always partition the registered PUs and are ranked consistently.
 Model: spec/CpuKinds.tla (oracle relations + transcription of cpukinds.c), spec/MC_CpuKinds.tla (bounded model);
 binding: spec/TraceCpuKinds.tla, harness/hwv_cpukinds.c"""
-import os, random, json, glob, tarfile, re
+import os, random, glob, tarfile
 import concurrent.futures as cf
 import vlib
 
@@ -123,17 +123,17 @@ def bfs_configs(thorough):
     # P: every non-empty subset of 4 PUs, <= 3 registrations, <= 1 restrict, two info arrays + NULL, no forced efficiency:
     #    partition, info accumulation, lookup
     cs.append(dict(tag="P", na=5, ntopo=4, reg=all_masks(4), res=all_masks(4), forced=[-1], infos=[[F1], [CA]],
-                   maxreg=3, maxres=1, maxaux=0, maxerr=0, nstripes=8 if thorough else 128))
+                   maxreg=3, maxres=1, maxaux=0, maxerr=0, nstripes=12 if thorough else 128))
     # R: ranking: 3 PUs, forced efficiencies -1..2, frequency infos
-    cs.append(dict(tag="R", na=4, ntopo=3, reg=all_masks(3), res=all_masks(3), forced=[-1, 0, 1, 2], infos=[[F1], [F2]],
-                   maxreg=3, maxres=1, maxaux=0, maxerr=0, nstripes=16 if thorough else 128))
+    cs.append(dict(tag="R", na=4, ntopo=3, reg=all_masks(3), res=all_masks(3), forced=[-1, 0, 1, 2] if thorough else [-1, 0, 1],
+                   infos=[[F1], [F2]], maxreg=3, maxres=1, maxaux=0, maxerr=0, nstripes=24 if thorough else 64))
     # O: registrations outside the topology (atom 3 is the infinite tail), rejected calls, dup / XML / refresh steps
     cs.append(dict(tag="O", na=4, ntopo=3, reg=all_masks(4), res=all_masks(4), forced=[-1, 1], infos=[[F1], [F1, CA, F1]],
-                   maxreg=2, maxres=1, maxaux=1, maxerr=1, nstripes=8 if thorough else 64))
+                   maxreg=2, maxres=1, maxaux=1, maxerr=1, nstripes=12 if thorough else 64))
     # D: deeper histories on 3 PUs: <= 4 registrations, <= 2 restricts
     if thorough:
         cs.append(dict(tag="D", na=4, ntopo=3, reg=all_masks(3), res=all_masks(3), forced=[-1, 0, 1], infos=[[F1], [CA]],
-                       maxreg=4, maxres=2, maxaux=0, maxerr=0, nstripes=128))
+                       maxreg=4, maxres=2, maxaux=0, maxerr=0, nstripes=192))
     else:
         cs.append(dict(tag="D", na=4, ntopo=3, reg=all_masks(3), res=all_masks(3), forced=[-1, 1], infos=[[F1]],
                        maxreg=4, maxres=2, maxaux=0, maxerr=0, nstripes=64))
@@ -228,12 +228,12 @@ def run(ctx, replay=None):
     # rejected calls)
     bcs = bfs_configs(thorough)
     scs = sim_configs(thorough, rng)
-    per = max(2, vlib.NCPU // max(1, len(bcs)))
+    share = {"P": 0.15, "R": 0.2, "O": 0.15, "D": 0.5} if thorough else {"P": 0.35, "R": 0.25, "O": 0.25, "D": 0.15}
 
     def bfs_job(c):
         ns = c["nstripes"]
         return ctx.tlc_mc("MC_CpuKinds_gen", cfg(c, ns, ctx.seed % ns, 0, True), tag="bfs_" + c["tag"],
-                          extra_modules=[("MC_CpuKinds_gen.tla", gen_module(c))], timeout=3000, workers=per, heap="5g")
+                          extra_modules=[("MC_CpuKinds_gen.tla", gen_module(c))], timeout=3000, workers=max(2, int(round(vlib.NCPU * share[c["tag"]]))), heap="5g")
 
     def sim_job(c):
         num = 400 if thorough else 75          # per simulation worker
@@ -289,7 +289,6 @@ def run(ctx, replay=None):
         arg = path if kind == "xml" else extract(ctx, path)
         n = 140
         lo, hi = list(range(n)) + [n], list(range(n)) + [-1]
-        cl = dict(na=n + 1, infos=[[F1], [CC, XS]])
         for rep in range(3 if thorough else 1):
             lines = [reset_line(kind, arg, lo, hi)]
             for step in range(5):
@@ -355,12 +354,12 @@ def run(ctx, replay=None):
                          % (len(drift), drift[0][0][:600]))
     return ctx.finish(
         rule="behaviours = one per striped state-graph edge of four exhaustively model-checked bounded configurations of MC_CpuKinds "
-             "(P: all subsets of 4 PUs, <=3 registrations, <=1 restrict; R: 3 PUs with forced efficiencies -1..2 and frequency infos; "
+             "(P: all subsets of 4 PUs, <=3 registrations, <=1 restrict; R: 3 PUs with forced efficiencies -1..2 (quick: -1..1) and frequency infos; "
              "O: registrations outside the topology, rejected calls, dup/XML/refresh steps; D: 3 PUs, <=4 registrations, <=2 restricts), TLC-simulated walks of depth 8 over 5-8 atoms with "
              "dup, XML export+import, refresh and rejected calls, and the bundled inputs that carry cpukinds followed by random steps; "
              "every behaviour was replayed on the rebuilt library (ASan+UBSan) and every recorded event validated by TLC against the "
              "relations of CpuKinds.tla; a behaviour is non-trivial when it contains at least one accepted registration",
-        assumptions=["restrict is only exercised by cpuset with flags 0 on topologies without disallowed PUs",
+        assumptions=["restrict is only exercised by cpuset with flags 0",
                      "forced efficiencies: only 'the latest known forced efficiency of every PU is uniform per kind and distinct across kinds' "
                      "obliges a ranking; the relation is silent when a later -1 overrides a known value",
                      "ranking heuristics from info strings are modelled (steering, model-level invariants) but the implementation is only "
